@@ -452,6 +452,9 @@ class Executor:
                 self.ref_digests.append([len(self.events), iid, record.digest(ref), key[:16]])
                 if 'exc' in ref:
                     exp['containers'].append({'exc': ref['exc']})
+                elif spec.get('write_pka', True) and 'write_exc' in ref:
+                    exp['containers'].append({'exc': ref['write_exc']})
+                    exp['pka_files'].update(ref['pka_files'])
                 else:
                     exp['containers'].append({'container': ref['container']})
                     if spec.get('write_pka', True):
@@ -460,6 +463,10 @@ class Executor:
             self.ref_digests.append([len(self.events), iid, record.digest(ref), key[:16]])
             if 'exc' in ref:
                 exp['exc'] = ref['exc']
+                break
+            if call.get('write_pka', True) and 'write_exc' in ref:
+                exp['exc'] = ref['write_exc']
+                exp['pka_files'].update(ref['pka_files'])
                 break
             exp['pka_files'].update(ref['pka_files'])
             if call['kind'] != 'cli':
